@@ -53,6 +53,10 @@ def _same(st, sn):
     return True
 
 
+class ReplayInternalError(BaseException):
+    pass
+
+
 def _apply(op, st, data, K, P, after):
     from fast_ticc import cluster_maintenance as cm, graphical_lasso as gl, cluster_label_assignment as cla
     if op == 'assign':
@@ -60,6 +64,9 @@ def _apply(op, st, data, K, P, after):
         new.clusters = [x.deep_copy() for x in new.clusters]
         new.point_labels = list(after) if after else [(l + 1) % K for l in st.point_labels]
         return new
+    if op == 'assign_inplace':
+        st.point_labels = list(after) if after else [(l + 1) % K for l in st.point_labels]
+        return st
     if op == 'shallow_copy':
         return st.shallow_copy()
     if op == 'deep_copy':
@@ -79,7 +86,7 @@ def _apply(op, st, data, K, P, after):
         return gl.optimize_markov_random_fields(st, data, Pool())
     if op == 'relabel':
         return cla.predict_cluster_labels(st, data)
-    raise ValueError(op)
+    raise ReplayInternalError(op)
 
 
 def replay(w):
@@ -123,17 +130,38 @@ def replay(w):
         else:
             ops = op if isinstance(op, list) else [op]
             st, data = _mk(K, P, labels, False)
-            sn = _snap(st)
+            history = [(st, _snap(st))]
             cur = st
             for o in ops:
-                cur = _apply(o, cur, data, K, P, nt.get('labels_after'))
+                prev = cur
+                if o == 'relabel' and len(ops) > 1:
+                    # make the relabel step reproduce the labelling it was given (the case that matters
+                    # for aliasing) by scripting the kernel
+                    from fast_ticc import cluster_label_assignment as cla
+                    real_k = cla.assign_point_cluster_labels
+                    keep = [int(x) for x in prev.point_labels]
+                    cla.assign_point_cluster_labels = lambda label_assignment_cost, label_switching_cost: (list(keep), 0.0)
+                    try:
+                        cur = _apply(o, cur, data, K, P, None)
+                    finally:
+                        cla.assign_point_cluster_labels = real_k
+                else:
+                    cur = _apply(o, cur, data, K, P, nt.get('labels_after') if len(ops) == 1 else None)
                 if not _inv(cur, K):
                     sig = 'invariant-broken-after-' + o
                     obs = {'labels': [int(x) for x in cur.point_labels],
                            'members': [list(c.member_points) for c in cur.clusters]}
                     break
-            if sig is None and not _same(st, sn):
-                sig = 'input-state-altered'
+                for (old, sn) in history:
+                    if old is cur and o == 'assign_inplace':
+                        continue
+                    if not _same(old, sn) or not _inv(old, K):
+                        sig = 'earlier-state-altered-by-' + o
+                        obs = {'labels': [int(x) for x in old.point_labels],
+                               'members': [list(c.member_points) for c in old.clusters]}
+                history = [(h, s2) for (h, s2) in history if h is not cur] + [(cur, _snap(cur))]
+                if sig:
+                    break
     except Exception as exc:
         sig, obs = 'operation-raises', {'raised': repr(exc)}
     return {'reproduced': sig is not None, 'signature': sig, 'observed': obs}
